@@ -47,6 +47,8 @@ def exec_scenario(scn):
         tbl = {}
         for (t, j, k, kind, arg) in table:
             tbl[(t, j, k)] = ("cancel",) if kind == "cancel" else ("switch", arg)
+    if scn.get("opcodes"):
+        _instrument_for_opcodes()
     baton = Baton(
         n, PKG,
         rng=None if replay else st.get("sched"),
@@ -54,7 +56,8 @@ def exec_scenario(scn):
         cancel_plan={int(k): v for k, v in (scn.get("cancel_plan") or {}).items()},
         max_events=scn.get("max_events", 400_000),
         burst=scn.get("burst", True),
-        record_sites=tuple(scn["record_sites"]) if scn.get("record_sites") else None,
+        record_sites=scn.get("record_sites") or None,
+        opcodes=bool(scn.get("opcodes")),
     )
     if replay:
         baton.exit_table = {int(t): to for t, to in (scn.get("exits") or [])}
@@ -98,7 +101,7 @@ def exec_scenario(scn):
         if kind == "H1c":
             # the plain-text call a user makes after cleaning the markup himself
             try:
-                cleaned = clean_text(op["markup"], list(op["clean"]))
+                cleaned = clean_text(op["markup"], ops.clean_list(op["clean"]))
             except (SimCancelled, SimOverrun, SimDeadlock):
                 raise
             except Exception:
@@ -109,7 +112,7 @@ def exec_scenario(scn):
         if kind in JUDGED:
             key = ops.op_key(op)
             kd = seeds.digest(key)
-            clean_in = list(op["clean"]) if op.get("clean") is not None else None
+            clean_in = ops.clean_list(op.get("clean"))
             clean_ref = list(clean_in) if clean_in is not None else None
             ext_list = ext_ref = None
             res = None
@@ -178,7 +181,11 @@ def exec_scenario(scn):
             try:
                 doc = Document(plain_text=r["op"].get("text", ""), markup_text="")
                 refs = extract_reference_citations(found, doc)
-                filter_citations(list(r["res"]) + refs)
+                arg = list(r["res"]) + refs
+                arg_ref = list(arg)
+                filter_citations(arg)
+                if len(arg) != len(arg_ref) or any(a is not b for a, b in zip(arg, arg_ref)):
+                    viol.append(("input_modified", t, j, {"what": "list passed to filter_citations"}))
                 # the returned list is a result of an earlier call too
                 retain(t, j, {"op": "H4refs", "text": r["op"].get("text", "")}, refs)
             except (SimCancelled, SimOverrun, SimDeadlock):
@@ -248,7 +255,8 @@ def exec_scenario(scn):
                for t, th in enumerate(threads) for j, op in enumerate(th) if op.get("_derived")]
     out = {
         "obs": obs, "viol": viol, "derived": derived, "op_events": op_events,
-        "sites": sorted([v[0], v[1], v[2], v[3], k[1]] for k, v in baton.sites.items()),
+        "sites": {f"{t}.{j}": sorted([v[0], v[1], v[2], v[3], k[1]] for k, v in tab.items())
+                  for (t, j), tab in baton.sites.items()},
         "events": baton.events, "switches": baton.switches,
         "digest": baton.digest(), "first": baton.first,
         "recorded": baton.recorded, "exits": baton.exit_recorded,
@@ -260,6 +268,37 @@ def exec_scenario(scn):
     if want_full:
         out["full"] = full
     return out
+
+
+WARMUP_DOC = ("See Foo v. Bar, 1 U.S. 1, 5 (2d Cir. 1990) (en banc); Bar at 7. Id. at 8. Foo, supra, at 9; "
+              "Bar, 2 F.2d at 12. 42 U.S.C. § 1983 (West 1999). 1 Minn. L. Rev. 1, 4 (1917).\n§ 5")
+
+
+def _instrument_for_opcodes():
+    """CPython 3.12 starts delivering 'opcode' events for a code object only
+    after f_trace_opcodes has been set on one of its frames once; run one
+    throw-away traced call so that the scenario's first thread is not blind.
+    (Only in bytecode-granularity sweeps; it warms the lazy caches of the
+    warm-up document's extractors, the line-granularity sweeps stay cold.)"""
+    import sys
+
+    from eyecite import get_citations
+
+    def tr(frame, event, arg):
+        if frame.f_code.co_filename.startswith(PKG):
+            frame.f_trace_opcodes = True
+            return tr
+        return None
+
+    sys.settrace(tr)
+    try:
+        get_citations(WARMUP_DOC)
+        get_citations(markup_text="<p>" + WARMUP_DOC.replace("Bar at 7", "<em>Bar</em> at 7") + "</p>",
+                      clean_steps=["html", "all_whitespace"])
+    except Exception:
+        pass
+    finally:
+        sys.settrace(None)
 
 
 def eval_isolated(op):
@@ -340,6 +379,10 @@ class ScenarioGen:
                 x = g.random()
                 text = pool[g.randrange(len(pool))]
                 if x < 0.62:
+                    if g.random() < 0.08 and len(text) > 20:
+                        # a near-twin of a pool text: same length, same first and last
+                        # characters, one digit in the middle changed
+                        text = _twin(text, g)
                     op = {"op": "H1", "text": text}
                     y = g.random()
                     if y < 0.15:
@@ -349,15 +392,19 @@ class ScenarioGen:
                               "clean": g.choice([["html", "all_whitespace"], ["html"],
                                                  ["html", "inline_whitespace"]])}
                     elif y < 0.32 and text not in ("", "eyecite"):
-                        op["clean"] = g.choice([["all_whitespace"], ["inline_whitespace", "underscores"]])
+                        op["clean"] = g.choice([["all_whitespace"], ["inline_whitespace", "underscores"],
+                                                ["@tab_to_space", "all_whitespace"]])
                     elif y < 0.35 and text not in ("", "eyecite"):
                         # a call that raises: markup without the html step
                         op = {"op": "H1", "text": "", "markup": tg.markup(text),
                               "clean": ["all_whitespace"]}
                 elif x < 0.72:
                     ext = self.ext_for(text)
+                    y = g.random()
                     op = {"op": "H2", "text": text, "ext": ext,
-                          "tok": "hs" if g.random() < 0.4 else "ref"}
+                          "tok": "hs" if y < 0.35 else "ref" if y < 0.8 else "ac"}
+                    if op["tok"] == "ac":
+                        op["ext"] = []
                 elif x < 0.80:
                     op = {"op": "H3", "r": g.randrange(8),
                           "what": g.choice(["resolve", "annotate", "clean"])}
@@ -392,6 +439,17 @@ class ScenarioGen:
             cancel_plan[str(t)] = int(math.exp(g.uniform(math.log(30), math.log(30000))))
         return {"seed": run_seed, "threads": threads, "p": p, "setorder": setorder,
                 "cancel_plan": cancel_plan}
+
+
+def _twin(text, g):
+    mid = [i for i in range(len(text) // 4, 3 * len(text) // 4) if text[i].isdigit()]
+    if not mid:
+        return text
+    i = mid[g.randrange(len(mid))]
+    d = str((int(text[i]) + 1 + g.randrange(8)) % 10)
+    if d == "0" and (i == 0 or not text[i - 1].isdigit()):
+        d = "7"
+    return text[:i] + d + text[i + 1:]
 
 
 def effective_op(scn, res, t, j):
@@ -490,9 +548,11 @@ def hashctx_batch(job):
 TIERS = {
     # runs, sim seconds cap, hash contexts, hashctx corpus extra docs
     "quick": {"runs": 2400, "sim_s": 35, "ctx": 24, "docs": 600, "ctx_s": 60,
-              "sweep_pairs": 6, "sweep_stride": 1, "sweep_all_pairs": 0, "sweep_s": 30, "base_s": 22},
+              "sweep_pairs": 6, "sweep_stride": 1, "sweep_all_pairs": 0, "sweep_s": 30, "base_s": 22,
+              "sweep_double": 120, "sweep_opcode_pairs": 0},
     "thorough": {"runs": 60000, "sim_s": 900, "ctx": 192, "docs": 4000, "ctx_s": 500,
-                 "sweep_pairs": 150, "sweep_stride": 1, "sweep_all_pairs": 12, "sweep_s": 700, "base_s": 400},
+                 "sweep_pairs": 150, "sweep_stride": 1, "sweep_all_pairs": 12, "sweep_s": 800, "base_s": 400,
+                 "sweep_double": 600, "sweep_opcode_pairs": 6},
 }
 
 
@@ -509,6 +569,8 @@ class Checker:
             self.cfg["runs"] = int(os.environ["VERIF_C15_RUNS"])
         if os.environ.get("VERIF_C15_CTX"):
             self.cfg["ctx"] = int(os.environ["VERIF_C15_CTX"])
+        if os.environ.get("VERIF_C15_OPCODE_PAIRS"):
+            self.cfg["sweep_opcode_pairs"] = int(os.environ["VERIF_C15_OPCODE_PAIRS"])
         self.log = log
         self.root = seeds.root_seed(self.verif_seed, PROP, tier)
         self.F = {}               # key digest -> (outcome digest, provenance)
@@ -654,6 +716,7 @@ class Checker:
         n_all = self.cfg.get("sweep_all_pairs", 0)
         t_end = time.monotonic() + self.cfg["sweep_s"]
         sw = self.sweep = {"pairs": 0, "preemption_runs": 0, "cancellation_runs": 0,
+                           "double_preemption_runs": 0, "pairs_in_opcode_mode": 0,
                            "line_events_of_A_total": 0, "distinct_sites_total": 0,
                            "pairs_in_all_events_mode": 0, "stride_in_all_events_mode": stride,
                            "complete_preemption_sweeps": 0, "complete_cancellation_sweeps": 0,
@@ -710,32 +773,50 @@ class Checker:
                     "threads": [[opa, dict(opb)], [opb, dict(opa)]],
                     "p": 0.0, "setorder": "off", "cancel_plan": {}, "table": [],
                     "exits": [[1, 0], [0, 1]], "first": 0, "burst": False}
-            res = forkpool.fork_call(exec_scenario, dict(base, record_sites=[0, 0]), timeout=120)
+            op_mode = sw["pairs_in_opcode_mode"] < self.cfg.get("sweep_opcode_pairs", 0)
+            if op_mode:
+                base["opcodes"] = True
+            res = forkpool.fork_call(exec_scenario, dict(base, record_sites=[[0, 0], [1, 0]]), timeout=120)
             if "_harness" in res:
                 self.harness.append({"sweep": res})
                 continue
             na = max([n for (t, j, n) in res["op_events"] if t == 0 and j == 0] or [0])
-            if na <= 0 or na > self.cfg.get("sweep_max_events", 8000):
+            if na <= 0 or na > self.cfg.get("sweep_max_events", 8000) * (8 if op_mode else 1):
                 sw["skipped_long"] += 1
                 continue
             absorb(base, res, ("sweep-base", pi))
             sw["pairs"] += 1
             self.sweep_bases[pi] = base
-            sites = res["sites"]
+            sites = res["sites"].get("0.0", [])
+            sites_b = res["sites"].get("1.0", [])
+            if op_mode:
+                sw["pairs_in_opcode_mode"] += 1
             sw["line_events_of_A_total"] += na
             sw["distinct_sites_total"] += len(sites)
-            all_mode = sw["pairs_in_all_events_mode"] < n_all
+            all_mode = (not op_mode) and sw["pairs_in_all_events_mode"] < n_all
             if all_mode:
                 sw["pairs_in_all_events_mode"] += 1
                 points = list(range(1, na + 1, stride))
+            elif op_mode:
+                points = sorted(set(x[0] for x in sites))
             else:
                 points = sorted(set([x[0] for x in sites] + [x[1] for x in sites]))
             cpoints = sorted(set(x[0] for x in sites)) if not all_mode else points
-            done = [0, 0]
+            if op_mode:
+                cpoints = cpoints[::4]
+            # double pre-emption: A stops at k1, B runs until k2, A finishes, B resumes
+            firsts_a = sorted(set(x[0] for x in sites))
+            firsts_b = sorted(set(x[0] for x in sites_b))
+            dpoints = []
+            for _ in range(self.cfg.get("sweep_double", 0) if firsts_a and firsts_b else 0):
+                dpoints.append((firsts_a[g.randrange(len(firsts_a))], firsts_b[g.randrange(len(firsts_b))]))
+            done = [0, 0, 0]
 
             def jobs():
                 for k in points:
                     yield dict(base, table=[[0, 0, k, "switch", 1]])
+                for (k1, k2) in dpoints:
+                    yield dict(base, table=[[0, 0, k1, "switch", 1], [1, 0, k2, "switch", 0]], double=True)
                 single = dict(base, threads=[[opa, dict(opa), opb, {"op": "RC"}]], exits=[])
                 for k in cpoints:
                     yield dict(single, table=[[0, 0, k, "cancel", None]])
@@ -744,7 +825,11 @@ class Checker:
                 if "_harness" in r:
                     self.harness.append({"sweep_run": r})
                     return
-                if len(scn["threads"]) > 1:
+                if scn.get("double"):
+                    done[2] += 1
+                    sw["double_preemption_runs"] += 1
+                    absorb(scn, r, ("sweep2", pi, scn["table"][0][2], scn["table"][1][2]))
+                elif len(scn["threads"]) > 1:
                     done[0] += 1
                     sw["preemption_runs"] += 1
                     absorb(scn, r, ("sweep", pi, scn["table"][0][2]))
@@ -762,7 +847,8 @@ class Checker:
             if len(sw["samples"]) < 2:
                 sw["samples"].append({"A": _op_brief(opa), "B": _op_brief(opb), "line_events_of_A": na,
                                       "distinct_source_lines_of_A": len(sites),
-                                      "mode": "all events" if all_mode else "first+last execution of every line",
+                                      "mode": ("first+last execution of every bytecode offset" if op_mode else
+                                               "all events" if all_mode else "first+last execution of every line"),
                                       "preemption_points_run": done[0], "cancellation_points_run": done[1]})
 
     # -- phase A3: isolated baselines ----------------------------------------------
@@ -803,7 +889,7 @@ class Checker:
             if "_harness" in res:
                 return None
             return to_replayable(scn, res)
-        if prov[0] in ("sweep", "sweep-base", "cancel-sweep"):
+        if prov[0] in ("sweep", "sweep2", "sweep-base", "cancel-sweep"):
             base = self.sweep_bases.get(prov[1])
             if base is None:
                 return None
@@ -811,6 +897,8 @@ class Checker:
                 return dict(base)
             if prov[0] == "sweep":
                 return dict(base, table=[[0, 0, prov[2], "switch", 1]])
+            if prov[0] == "sweep2":
+                return dict(base, table=[[0, 0, prov[2], "switch", 1], [1, 0, prov[3], "switch", 0]])
             opa, opb = base["threads"][0][0], base["threads"][1][0]
             return dict(base, threads=[[opa, dict(opa), opb, {"op": "RC"}]], exits=[],
                         table=[[0, 0, prov[2], "cancel", None]])
@@ -1226,6 +1314,7 @@ def run(tier, verif_seed, log=print):
         f"switches={ck.cnt['switches']}, suspects={len(ck.suspects)} ({time.monotonic() - t0:.1f}s)")
     ck.phase_sweep(atlas)
     log(f"[C15] sweeps: {ck.sweep['pairs']} pairs, {ck.sweep['preemption_runs']} single-pre-emption runs, "
+        f"{ck.sweep['double_preemption_runs']} double-pre-emption runs, {ck.sweep['pairs_in_opcode_mode']} pairs at bytecode granularity, "
         f"{ck.sweep['cancellation_runs']} single-cancellation runs over {ck.sweep['distinct_sites_total']} "
         f"source lines / {ck.sweep['line_events_of_A_total']} line events, "
         f"suspects={len(ck.suspects)} ({time.monotonic() - t0:.1f}s)")
